@@ -166,6 +166,7 @@ func (r c12Record) equals(q model.AcctRequest) bool {
 
 func runC12(t failer, c c12Case) {
 	ev.Eval()
+	journal("C12", c)
 	fail := func(sig, format string, args ...interface{}) {
 		violation(t, "C12", "acct", "C12:"+sig, c, format, args...)
 	}
